@@ -13,7 +13,9 @@ import (
 	"log"
 	"math/rand"
 	"os"
+	"sort"
 	"strconv"
+	"strings"
 
 	"github.com/go-text/typesetting/font"
 	"github.com/go-text/typesetting/fontscan"
@@ -130,7 +132,7 @@ func execHistory(enc *json.Encoder, t int, ops []fmOp) {
 			if runes == nil {
 				runes = []int{}
 			}
-			enc.Encode(fmEvent{"t": t, "ev": "AddFace", "fam": font.NormalizeFamily(op.Fam), "asp": op.Asp, "runes": runes, "scripts": scripts, "ttf": ttf})
+			enc.Encode(fmEvent{"t": t, "ev": "AddFace", "fam": font.NormalizeFamily(op.Fam), "asp": op.Asp, "runes": runes, "scripts": scripts, "ttf": ttf, "mono": strings.Contains(font.NormalizeFamily(op.Fam), "mono")})
 		case "SetQuery":
 			st.query = fontscan.Query{Families: op.Fams, Aspect: op.Asp.real()}
 			st.hasQ = true
@@ -173,27 +175,38 @@ func execHistory(enc *json.Encoder, t int, ops []fmOp) {
 				}
 				fg = st.indexOf(fresh.ResolveFace(rune(op.R)))
 			}()
-			// fact: is the substitution-expanded family list of the query just the query itself? (the documented
-			// priority is specified for that case; with generic or substituted families only the other laws are judged)
-			plain := true
-			{
-				cr := fontscan.VerifCrible(st.query.Families, st.script) // also without a query: default families are appended
-				want := map[string]bool{}
-				for _, f := range st.query.Families {
-					want[font.NormalizeFamily(f)] = true
-					if fontscan.VerifIsGeneric(f) {
-						plain = false
+			// facts from the library's substitution tables (verif export): the expanded family list of the
+			// current query under the current script, and of each generic keyword of the query, restricted
+			// to the families present in the map. FontMap.tla specifies how they must be used.
+			inMap := map[string]bool{}
+			for _, a := range st.added {
+				inMap[font.NormalizeFamily(a.op.Fam)] = true
+			}
+			restrict := func(cr map[string][2]int) [][]interface{} {
+				out := [][]interface{}{}
+				var keys []string
+				for k := range cr {
+					if inMap[k] {
+						keys = append(keys, k)
 					}
 				}
-				// only substitutes that name a family present in the map matter
-				for _, a := range st.added {
-					fam := font.NormalizeFamily(a.op.Fam)
-					if _, in := cr[fam]; in && !want[fam] {
-						plain = false
-					}
+				sort.Strings(keys)
+				for _, k := range keys {
+					out = append(out, []interface{}{k, cr[k][0], cr[k][1] == 1})
+				}
+				return out
+			}
+			crible := restrict(fontscan.VerifCrible(st.query.Families, st.script))
+			gen := [][]interface{}{}
+			seenG := map[string]bool{}
+			for _, f := range st.query.Families {
+				nf := font.NormalizeFamily(f)
+				if fontscan.VerifIsGeneric(f) && !seenG[nf] {
+					seenG[nf] = true
+					gen = append(gen, []interface{}{nf, restrict(fontscan.VerifCrible([]string{f}, 0))})
 				}
 			}
-			enc.Encode(fmEvent{"t": t, "ev": "Resolve", "r": op.R, "got": got, "fresh": fg, "plain": plain})
+			enc.Encode(fmEvent{"t": t, "ev": "Resolve", "r": op.R, "got": got, "fresh": fg, "crible": crible, "gen": gen})
 		}
 	}
 }
@@ -202,7 +215,7 @@ var fmFams = []string{"vfalpha", "vfbeta", "vfgamma"}
 
 // families with entries in the substitution tables: fonts named like a substitute, queries naming
 // the substituted family or a generic one
-var fmSubFams = []string{"Nimbus Sans", "DejaVu Serif", "Liberation Serif"}
+var fmSubFams = []string{"Nimbus Sans", "DejaVu Serif", "Liberation Mono", "Liberation Serif"}
 var fmSubQueries = []string{"Helvetica", "serif", "sans-serif", "Times New Roman", "monospace", "Arial"}
 var fmScripts = []string{"Latn", "Cyrl", "Hebr", "Hani", "none"}
 var fmUniverse = []int{'a', 'b', 'я', 'א', '漢', '1'}
